@@ -1,4 +1,5 @@
 import Batteries.Tactic.Alias
+import GenlmModel.Proofs.UCycle
 import GenlmModel.Proofs.Struct
 /-! # C07 — normal forms satisfy their structural postconditions
 About the mirror models of `Model/Transform.lean` (compared with the real code stage by stage on
@@ -21,4 +22,7 @@ alias trim_nonempty := Genlm.trim_nonempty
 alias trim_idempotent := Genlm.trim_idem
 /-- the whole `cnf` pipeline lands in Chomsky normal form, start symbol off every right-hand side -/
 alias cnf_shape := Genlm.cnf_shape
+/-- unary-cycle removal (given the SCC blocks of the unary graph) leaves no unary cycle -/
+alias unarycycleremove_no_unary_cycle := Genlm.ucycle_no_unary_cycle
+alias unarycycleremove_no_unary_cycle_graph := Genlm.ucycle_no_unary_cycle_graph
 end Genlm.Props.C07
